@@ -26,7 +26,6 @@ func SmallSpecs() []*Spec {
 		Distributed("2001:db8::/126", 128, false, 0),
 		Distributed("10.0.0.0/29", 32, true, 1),
 		Distributed("10.0.0.0/29", 32, true, 2),
-		Distributed("10.0.0.64/27", 30, true, 1), // lease mode over /30 units: slot index != address offset
 		DistributedMAC("10.0.0.0/29", 32, false, 0),
 		DistributedMAC("10.0.0.0/29", 32, true, 1),
 		PoolAlloc("10.0.0.0/29", 32),
